@@ -143,11 +143,13 @@ package uePolicyContainer
 //@ end
 
 //@ func (u *UEPolicySectionManagementList) UnmarshalBinary(buf) (err)
+//@   inline
 //@   requires BufOK(buf)
 //@   ensures buflen(buf) >= 0 && buflen(buf) <= old(buflen(buf))
 //@ end
 
 //@ func (u *UEPolicySectionManagementResult) UnmarshalBinary(buf) (err)
+//@   inline
 //@   requires BufOK(buf)
 //@   ensures buflen(buf) >= 0 && buflen(buf) <= old(buflen(buf))
 //@ end
@@ -308,4 +310,16 @@ package uePolicyContainer
 //@   ensures len(got) == 1 && got[0].Len == 13 && PlmnSet(got[0], mcc, mnc) && len(got[0].UEPolicySectionManagementSubResultContents) == 2
 //@   ensures got[0].UEPolicySectionManagementSubResultContents[0].Upsc == r0.Upsc && got[0].UEPolicySectionManagementSubResultContents[0].FailInstructionOrder == r0.FailInstructionOrder && got[0].UEPolicySectionManagementSubResultContents[0].Cause == 0x6f
 //@   ensures got[0].UEPolicySectionManagementSubResultContents[1].Upsc == r1.Upsc && got[0].UEPolicySectionManagementSubResultContents[1].FailInstructionOrder == r1.FailInstructionOrder && got[0].UEPolicySectionManagementSubResultContents[1].Cause == 0x6f
+//@ end
+
+// Truncated or unknown delivery messages are errors: fewer than 2 octets, a message type outside 1..6, a command or
+// reject without the 3-octet list header, or with fewer content octets than the list length announces.
+//@ define ListLen(b) := ((int(b[3]) << 8) | int(b[4]))
+//@ func (u *UePolDeliverySer) UePolDeliverySerDecode(byteArray) (err)
+//@   ensures implies(len(byteArray) < 2, err != nil)
+//@   ensures implies(len(byteArray) >= 2 && (byteArray[1] < 1 || byteArray[1] > 6), err != nil)
+//@   ensures implies(len(byteArray) >= 2 && len(byteArray) < 5 && (byteArray[1] == 1 || byteArray[1] == 3), err != nil)
+//@   ensures implies(len(byteArray) >= 5 && (byteArray[1] == 1 || byteArray[1] == 3) && len(byteArray) < 5 + ListLen(byteArray), err != nil)
+//@   ensures implies(len(byteArray) >= 5 && byteArray[1] == 3 && len(byteArray) >= 5 + ListLen(byteArray), err == nil)
+//@   ensures implies(len(byteArray) == 2 && byteArray[1] == 2, err == nil)
 //@ end
